@@ -418,3 +418,50 @@ func logMain(args []string) {
 	}
 	fmt.Println(o.Verdict, o.Cycles)
 }
+
+func init() { extraCmds["attr"] = attrMain }
+
+// attrMain: developer aid. For each replay file: re-run its input on its configuration with the options of the
+// given property and say which known finding (if any) every observed finding would be attributed to.
+// usage: vcheck attr <Cxx> <replay.json>...
+func attrMain(args []string) {
+	if len(args) < 2 {
+		fmt.Println("usage: attr <Cxx> <replay.json>...")
+		return
+	}
+	dp, ok := registry[args[0]].(*diffProp)
+	if !ok {
+		fmt.Println("not a differential property:", args[0])
+		return
+	}
+	kf := loadKnownFindings()
+	for _, path := range args[1:] {
+		b, err := os.ReadFile(path)
+		if err != nil {
+			fmt.Println(err)
+			continue
+		}
+		var f finding
+		if json.Unmarshal(b, &f) != nil || f.Input == nil {
+			fmt.Println(path, ": not a replay file")
+			continue
+		}
+		o := dp.optsForFamily(f.Family)
+		o.Prop = dp.id
+		out := diffCase(*f.Input, []config{f.Config}, o)
+		if len(out.Findings) == 0 {
+			fmt.Printf("%s: no divergence now\n", filepath.Base(path))
+		}
+		for _, g := range out.Findings {
+			g.Prop = dp.id
+			m := "UNATTRIBUTED"
+			for _, e := range kf.Entries {
+				if e.matches(g) {
+					m = e.ID
+					break
+				}
+			}
+			fmt.Printf("%s: %s %s %s %s -> %s\n", filepath.Base(path), g.Config, g.Class, subClass(g.Sub), g.Site, m)
+		}
+	}
+}
